@@ -721,7 +721,25 @@ def c07r(db, res):
             adv = [(bb, w) for bb, w in adv if w['op'] in ('+=', '=') and not (w['op'] == '=' and bb not in {x for h, body in C.loops(f) if b in body or h == b for x in body})]
             for bb, w in adv:
                 n += 1
-                uses_tok = any(strip(v).get('name') == tok for v in nodes(w['r'], lambda y: y.get('k') == 'var'))
+                # directly, or through locals defined from it (`used = (tok - input) + tok_len + 1; input += used;`)
+                defs = {}
+                for b2, i2, s2 in f.stmts():
+                    for d in nodes(s2, lambda y: y.get('k') == 'decl'):
+                        for v in d['vars']:
+                            if v.get('init') is not None:
+                                defs.setdefault(v['name'], []).append(v['init'])
+                    for a in nodes(s2, lambda y: y.get('k') == 'assign' and y['op'] == '=' and strip(y['l']).get('k') == 'var'):
+                        defs.setdefault(strip(a['l'])['name'], []).append(a['r'])
+
+                def mentions(e, depth=0):
+                    for v in nodes(e, lambda y: y.get('k') == 'var'):
+                        nm = strip(v).get('name')
+                        if nm == tok:
+                            return True
+                        if depth < 3 and nm not in (inp,) and nm in defs and all(mentions(d_, depth + 1) for d_ in defs[nm]):
+                            return True
+                    return False
+                uses_tok = mentions(w['r'])
                 res.check(uses_tok, 'C07.r', '%s:%s-advance' % (name, inp), 'the cursor moves to the end of the token the scanner returned',
                           '%s advances `%s` by %s, measured from where the scan started, although get_token() skips leading separators and returns the token in `%s`: with two separator characters in front of a coding the next scan starts inside it ("gzip ,  deflate" also yields "te"; "deflate,        gzip" yields gzip twice - three layers for two codings)' % (name, inp, S(w['r']), tok), w['loc'])
     res.floor('C07.r', 'advances of a get_token input cursor', n, 1)
